@@ -936,9 +936,18 @@ def printer_item(item):
         new = cmod.get_constants('initParams.json')
         return c, new
 
+    class FakeIntegrate:
+        # scipy.integrate.quad is only reached when CN0 has to be computed: any value (the claim is that a CN0 given in
+        # the file is kept, not what the quadrature returns)
+        @staticmethod
+        def quad(*a, **k):
+            return (2.0, 0.0)
+    real_integrate = cmod.integrate
+
     def patch():
         cmod.open = lambda *a, **k: FakeFile()
         cmod.json = FakeJson
+        cmod.integrate = FakeIntegrate
         symx.SNum.__str__ = naming
         symx.SNum.__repr__ = naming
         symx.SNum.__format__ = naming
@@ -948,6 +957,7 @@ def printer_item(item):
         symx.SNum.__repr__ = old_str
         symx.SNum.__format__ = old_fmt
         cmod.json = json
+        cmod.integrate = real_integrate
         if 'open' in vars(cmod):
             del cmod.open
 
@@ -1115,7 +1125,7 @@ def main():
             caught[r['canary']] = bool(r['violations'])
             continue
         run.merge(r)
-    run.merge(printer_item((('n', 'm', 'eps', 'kN0', 'B0', 'iotaVal'), None)))
+    run.merge(printer_item((('n', 'm', 'eps', 'kN0', 'B0', 'iotaVal', 'CN0'), None)))
     hit = caught.get(CONST_CANARY[0], False)
     run.canaries.append(dict(name=CONST_CANARY[0], detected=hit))
     if not hit:
